@@ -48,6 +48,9 @@ func genC06(t *rapid.T) c06Case {
 	if c.Cfg.Algo == "vegas" && rapid.IntRange(0, 4).Draw(t, "customNoLoad") == 0 {
 		c.Cfg.NoLoad = "single" // a caller-supplied baseline measurement (latest value): drops must still bring the limit down
 	}
+	if c.Cfg.Algo == "gradient" && rapid.IntRange(0, 4).Draw(t, "defaultMax") == 0 {
+		c.Cfg.Max = rapid.SampledFrom([]int{0, -1, -1000}).Draw(t, "unsetMax") // "use the default maximum"; the configured minimum stays what it is
+	}
 	if rapid.Bool().Draw(t, "hasPrefix") {
 		c.Prefix = genSamples(t, c.Cfg, 150)
 	}
